@@ -158,7 +158,15 @@ def explore_class(cfg, acc):
     inv = make_invariant(spec, conv, d, acc, cfg, build)
 
     def enabled(w, hist):
-        return [] if w.failed is not None else w.enabled_ops()
+        if w.failed is not None:
+            return []
+        ops = w.enabled_ops()
+        if not hist and cfg.get("first_op") is not None:
+            # the deep exploration of one class is split over shards by its first operation
+            # (deduplication then happens within a shard only: more work in total, all of it
+            # parallel)
+            return ops[cfg["first_op"]:cfg["first_op"] + 1]
+        return ops
 
     def canon18(w):
         # the reference model's validity sets are part of the state: two histories with the same
@@ -333,8 +341,10 @@ def configs(tier, seed):
     if tier == "thorough":
         # one level deeper for the classes with the richest derivative chains
         for spec, conv in (("euclidean", "with_value"), ("constrained_gram", "mixed_top")):
-            cfgs.append({"mode": "bfs", "spec": spec, "conv": conv, "d": 2, "depth": 4,
-                         "seed": seed})
+            n_first = len(cw.World(spec, conv, 2).enabled_ops())
+            for k in range(n_first):
+                cfgs.append({"mode": "bfs", "spec": spec, "conv": conv, "d": 2, "depth": 4,
+                             "seed": seed, "first_op": k})
     for spec in ("constrained_hausdorff", "constrained_gram", "gaussian_constrained"):
         for conv in cw.CONVS:
             for rec in izoo.constrained_recipes(True, (1, 2, 3)):
